@@ -798,7 +798,15 @@ func (e *Env) call(x *ECall) (Val, types.Type) {
 		}
 		v, ty, ok := e.final(id.Name)
 		if !ok {
-			return e.fail("final(%s): no such local variable in scope at this return", id.Name)
+			// not in scope at THIS return (declared on another path): an arbitrary value of its type - a clause can then only
+			// hold here if it does not depend on it
+			for _, a := range t.cells {
+				if a.Comment == id.Name {
+					et := a.Type().(*types.Pointer).Elem()
+					return Val{T: t.freshVal("final_out_of_scope", et)}, et
+				}
+			}
+			return e.fail("final(%s): the function has no local variable of that name", id.Name)
 		}
 		return v, ty
 	case "listened":
